@@ -27,7 +27,7 @@ func TimeoutFor(c dialx.Case) time.Duration {
 		return 500 * time.Millisecond
 	}
 	for _, s := range c.Script {
-		if s == "stall" {
+		if s == "stall" || strings.HasPrefix(s, "ws") {
 			return 500 * time.Millisecond
 		}
 	}
@@ -335,6 +335,11 @@ func generate(r *hx.Run, pki *dialx.PKI) []dialx.Case {
 		}
 	}
 	out = append(out, dialx.FallbackTCPCases()...)
+	if ws, err := dialx.WriteStallCases(pki); err == nil {
+		out = append(out, ws...)
+	} else {
+		r.Fail("baseline", "harness-error", err.Error())
+	}
 	for _, hs := range []string{"wrongname", "untrusted", "garbage"} {
 		out = append(out, dialx.Case{Kind: "dial", Policy: "M", SSL: true, Auth: "NOAUTH", Custom: "-", Host: "127.0.0.1", Mute: -1, Caps: capsTLS, CapsTLS: capsTLS, HS: hs})
 	}
